@@ -641,6 +641,7 @@ funcgoto(struct func *f, char *name)
 	if (!g) {
 		g = xmalloc(sizeof(*g));
 		g->label = mkblock(name);
+		g->defined = false;
 		*entry = g;
 	}
 
